@@ -277,6 +277,31 @@ func runC07(c *Ctx) {
 				}
 			}
 			addrCalls := core.CallsTo(um, "(*net/netip.Addr).UnmarshalText")
+			// the same parse spelled rec.Addr, err = netip.ParseAddr(string(field)):
+			// for a non-empty field the two are the same function
+			var parseCalls []*ssa.Call
+			for _, ci := range core.CallsTo(um, "net/netip.ParseAddr") {
+				call := ci.(*ssa.Call)
+				cv, isCv := call.Call.Args[0].(*ssa.Convert)
+				if !isCv || field == nil || cv.X != ssa.Value(field) {
+					continue
+				}
+				stored := false
+				for _, r := range core.Refs(call) {
+					if ex, isEx := r.(*ssa.Extract); isEx && ex.Index == 0 {
+						for _, rr := range core.Refs(ex) {
+							if st, isSt := rr.(*ssa.Store); isSt {
+								if fa, isFA := st.Addr.(*ssa.FieldAddr); isFA && core.FieldName(fa) == "Addr" && fa.X == ssa.Value(um.Params[0]) {
+									stored = true
+								}
+							}
+						}
+					}
+				}
+				if stored {
+					parseCalls = append(parseCalls, call)
+				}
+			}
 			for _, ret := range core.Returns(um) {
 				v := ret.Results[0]
 				switch name := errConstName(c, v); name {
@@ -289,6 +314,13 @@ func runC07(c *Ctx) {
 					if call, isCall := v.(*ssa.Call); isCall && core.CalleeName(&call.Call) == "(*net/netip.Addr).UnmarshalText" {
 						c.check(guardedNonNilErr(ret, call), "C07.classify", um, "address parse error returned as is", ret, "not wrapped, under err != nil")
 					}
+					if ex, isEx := v.(*ssa.Extract); isEx && ex.Index == 1 {
+						for _, pc := range parseCalls {
+							if ex.Tuple == ssa.Value(pc) {
+								c.check(guardedNonNilErr(ret, ex), "C07.classify", um, "address parse error returned as is", ret, "not wrapped, under err != nil")
+							}
+						}
+					}
 				}
 			}
 			for _, ci := range addrCalls {
@@ -300,7 +332,13 @@ func runC07(c *Ctx) {
 				c.check(okArg && field != nil && tail != nil && guardedByLenZero(call, field, false) && guardedByLenZero(call, tail, false), "C07.classify", um,
 					"rec.Addr.UnmarshalText(field) after the empty-line and no-hosts checks", call, "classification order: ErrEmptyLine, ErrNoHosts, then the address error")
 			}
-			if len(addrCalls) == 0 {
+			for _, call := range parseCalls {
+				c.check(field != nil && tail != nil && guardedByLenZero(call, field, false) && guardedByLenZero(call, tail, false), "C07.classify", um,
+					"rec.Addr, err = netip.ParseAddr(string(field)) after the empty-line and no-hosts checks", call, "classification order: ErrEmptyLine, ErrNoHosts, then the address error")
+			}
+			if len(addrCalls) == 0 && len(parseCalls) > 0 {
+				c.check(true, "C07.callee", um, "address parsed by netip.ParseAddr into rec.Addr", parseCalls[0], "callee identity")
+			} else if len(addrCalls) == 0 {
 				c.check(false, "C07.callee", um, "address parsed by netip.Addr.UnmarshalText", nil, "the address field must be accepted exactly when netip.ParseAddr accepts it")
 			} else {
 				c.check(true, "C07.callee", um, "address parsed by netip.Addr.UnmarshalText", addrCalls[0], "callee identity")
